@@ -55,6 +55,7 @@ def run(chk):
     hmap_rule(chk, fs)
     gcirc_rule(chk, fs["gcirc"], decls)
     python_rules(chk, repo, m)
+    quadtree_rule(chk)
 
 
 # ---------------------------------------------------------------------------
@@ -731,3 +732,55 @@ def python_rules(chk, repo, m):
             ok = ok and [nm for nm, ty in dt] == ["i1", "i2", "d12"] and lits == [delim, delim, "\n"]
     chk.ob("R12.5", "pair-file-format-agrees-with-reader", bool(ok), rp.where(),
            "fprintf format %r writes long, long, double(%%.16g or better) separated by the reader's delimiter %r and ended by a newline; the reader's dtype is %s" % (fmt, delim, dt))
+
+
+# ---------------------------------------------------------------------------
+def quadtree_rule(chk):
+    """R12.9: a triangle found wholly inside the search circle above the leaf level stands for ALL its leaf descendants: the expansion
+    must visit the four children (id<<2)+0..3 at every level (or, in closed form, the 4^level consecutive leaf ids from id << 2*level).
+    This is the one place of the vendored cover code where 'none missing' reduces to a counting fact visible in the source."""
+    decls = cfront.load_tu("spatialconvex")
+    fs = cfront.functions(decls)
+    where = "esutil/htm/htm_src/SpatialConvex.cpp"
+    for nm, callee in (("SpatialConvex::setfull", "setfull"), ("SpatialConvex::testPartial", "testSubTriangle")):
+        fn = fs.get(nm)
+        if fn is None:
+            chk.ob("R12.9", nm + "::present", None, where, "function not found in the vendored cover code")
+            continue
+        chk.analysed_unit("SpatialConvex.cpp:" + nm)
+        ps = cfront.params_of(fn)
+        idp = next((p for p in ps if p == "id"), None) or (ps[0] if callee == "setfull" else ps[1])
+        lvl = next((p for p in ps if p == "level"), None) or (ps[1] if callee == "setfull" else ps[0])
+        calls = [x for x in walk(cfront.body_of(fn)) if x.get("kind") in ("CallExpr", "CXXMemberCallExpr") and callee_name(x) == callee]
+        idpos = 0 if callee == "setfull" else 1
+        ids = sorted(render(cfront.call_args(c)[idpos]).replace(" ", "") for c in calls)
+        want = sorted(["(%s<<2)" % idp, "((%s<<2)+1)" % idp, "((%s<<2)+2)" % idp, "((%s<<2)+3)" % idp])
+        if calls:
+            g = cfront.CCFG(fn)
+            v = g.view()
+            arms = set()
+            for n in g.nodes:
+                if isinstance(n.c, dict) and any(x in calls for x in walk(n.c)):
+                    for b, lab in v.controlling_branches(n):
+                        if b.kind == "branch":
+                            arms.add((render(b.c).replace(" ", ""), lab))
+            ok = ids == want and arms == {("%s--" % lvl, "T")}
+            chk.ob("R12.9", nm + "::four-children-per-level", ok, where,
+                   "while levels remain the descent visits exactly the children (id<<2)+0..3 (found %s under %s)" % (ids, sorted(arms)))
+        elif callee == "setfull":
+            # closed form: a loop over consecutive leaf ids
+            loops = [x for x in walk(cfront.body_of(fn)) if x.get("kind") in ("ForStmt", "WhileStmt")]
+            defs = {}
+            for x in walk(cfront.body_of(fn)):
+                if x.get("kind") == "VarDecl" and init_of(x) is not None:
+                    defs[x["name"]] = render(init_of(x)).replace(" ", "")
+            first = [k for k, t in defs.items() if t in ("(%s<<(2*%s))" % (idp, lvl), "(%s<<(%s*2))" % (idp, lvl), "(%s<<(%s<<1))" % (idp, lvl))]
+            count = [k for k, t in defs.items() if t in ("(1<<(2*%s))" % lvl, "(1<<(%s*2))" % lvl, "(1<<(%s<<1))" % lvl)]
+            if len(loops) == 1 and first:
+                chk.ob("R12.9", nm + "::closed-form-covers-4^level-leaves", bool(count), where,
+                       "a full node at `level` above the leaves has 4^level = 1 << 2*level leaf descendants starting at id << 2*level; the loop must run over all of them "
+                       "(definitions found: %s)" % defs)
+            else:
+                chk.ob("R12.9", nm + "::expansion-recognised", None, where, "neither the four-way recursion nor a closed-form leaf loop was recognised")
+        else:
+            chk.ob("R12.9", nm + "::expansion-recognised", None, where, "the four sub-triangle tests were not found")
